@@ -121,7 +121,7 @@ META = {
                    "detuning, IEEE doubles and math.log are outside the verifier).",
         level_note=TB + " The claim is split: see coverage.explanation; bounded parts are under coverage.bounded_driver.",
         explanation="Deductive: Note.__int__, __lt__/__eq__/__ne__/__gt__/__le__/__ge__, measure, from_int, set_channel, set_velocity, "
-                    "set_note and __init__ (no-dash names). Bounded: text forms, copy, Helmholtz round trip, Hz round trip "
+                    "set_note, __init__ (no-dash names) and remove_redundant_accidentals. Bounded: text forms, copy, Helmholtz round trip, Hz round trip "
                     "(12.8k cases, quick tier). Former deviation repaired in /repo: e51ef4c (Helmholtz flats).",
     ),
     "C16": dict(
@@ -149,7 +149,8 @@ META = {
                     "get_midi_data, set_meter, set_key, set_tempo, play_/stop_Note, play_/stop_NoteContainer, play_Bar, "
                     "play_Track, track_name_event / set_track_name (any ASCII name, length as a VLQ, non-ASCII refused), "
                     "MidiTrack.__init__ / reset, set_tempo_event refusing tempi that do not fit three bytes, MidiFile.header, "
-                    "MidiFile.get_midi_data. Bounded: whole files via bounded/drivers/C16.py. "
+                    "MidiFile.get_midi_data, MidiFile.__init__ (stores the given track list, resets none of them) and MidiFile.reset "
+                    "(every track emptied; files of 0..4 tracks). Bounded: whole files via bounded/drivers/C16.py. "
                     "Repaired in /repo while writing these contracts: 8a5bd09 (header counted tracks without data).",
     ),
     "C17": dict(
@@ -292,7 +293,7 @@ META = {
         level_note=TB + " The deductive piece is bounded in container size (<= 2 notes before the call), unbounded in pitches.",
         explanation="Deductive: NoteContainer.add_note (Note and bare-name forms), add_notes(container), remove_note (2 forms), the four "
                     "consonance predicates, get_note_names, remove_notes and '-' (a name, a Note, a list of two names), __init__ "
-                    "(own note list), __len__, __getitem__, __eq__, from_interval_shorthand (start note object). Bounded: bounded/drivers/C12.py.",
+                    "(own note list), __len__, __getitem__, __eq__, __contains__ (pitch membership, 0..3 notes), from_interval_shorthand (start note object). Bounded: bounded/drivers/C12.py.",
     ),
     "C13": dict(
         claimed=True, level="other",
